@@ -133,7 +133,9 @@ def _sf_terms(I: Interp, fr: Frame) -> tuple[Any, Any, Any]:
 def havoc_subfn(I: Interp, fr: Frame) -> None:
     fr.env["supported_in_active_session"] = I.fresh_bool("act")
     fr.env["supported_in_other_session"] = I.fresh_bool("oth")
-    for n in ("session", "supported_sub_functions", "sub_function"):
+    # only what the loop itself assigns is unknown after an arbitrary number of iterations
+    for n in I.ghost.get("__loop_assigned", set()) - {"supported_in_active_session",
+                                                       "supported_in_other_session"}:
         fr.env.pop(n, None)
         fr.poison.add(n)
 
